@@ -472,7 +472,7 @@ class WriterDriver(explore.Driver):
     def canon(self, st):
         if st.dump is None:
             # canon is only meaningful after check(); keep states apart
-            return ("unchecked", id(st))
+            return ("unchecked", explore.unique_token())
         return (st.dump, st.mode, st.gs, st.next)
 
 
